@@ -52,6 +52,11 @@ const EXPECT_WS_ERRMSG: Xstr = xeh_xstr!("expect whitespace word separator");
 const UNTERMINATED_COMMENT_ERRMSG: Xstr = xeh_xstr!("unterminated multiline comment");
 
 impl Lex {
+    // the text this lexer reads (its identity tells which source it belongs to)
+    pub(crate) fn buffer(&self) -> &Xstr {
+        &self.buf
+    }
+
     pub fn new(buf: Xstr) -> Lex {
         Self {
             buf,
